@@ -563,3 +563,9 @@ func ConstValInt(o types.Object) (int64, bool) {
 
 // Const re-exports types.Const.
 type Const = types.Const
+
+// More re-exports.
+type (
+	PkgName = types.PkgName
+	MapType = types.Map
+)
